@@ -25,6 +25,7 @@ type concMarshaler struct {
 	gate    map[int]chan struct{} // wait here before marshalling
 	midGate map[int]chan struct{} // wait here after the first write of the record reached the file
 	cont    map[int]bool          // return a continuation record once (a marshaler that segments)
+	fail    map[int]bool          // the marshaler fails for this record (an I/O error, a failing block reader)
 	contDone map[int]bool
 	entered chan int              // tokens whose marshalling has started
 }
@@ -50,6 +51,7 @@ func (m *concMarshaler) Marshal(w io.Writer, record gowarc.WarcRecord, maxSize i
 	us := m.sleepUs[tok]
 	g := m.gate[tok]
 	mg := m.midGate[tok]
+	fl := m.fail[tok]
 	ct := m.cont[tok]
 	if ct {
 		delete(m.cont, tok)
@@ -68,6 +70,9 @@ func (m *concMarshaler) Marshal(w io.Writer, record gowarc.WarcRecord, maxSize i
 	}
 	if mg != nil {
 		w = &midWriter{w: w, gate: mg}
+	}
+	if fl {
+		return nil, 0, fmt.Errorf("verif: marshaler failure for record %d", tok)
 	}
 	next, n, err := m.inner.Marshal(w, record, maxSize)
 	if ct && err == nil && next == nil {
@@ -112,7 +117,7 @@ func kConc(args []string) (string, string) {
 		return "infra-tmp", "ok"
 	}
 	defer os.RemoveAll(dir)
-	cm := &concMarshaler{inner: gowarc.NewMarshaler(), sleepUs: map[int]int{}, gate: map[int]chan struct{}{}, midGate: map[int]chan struct{}{}, cont: map[int]bool{}, contDone: map[int]bool{}, entered: make(chan int, 1000)}
+	cm := &concMarshaler{inner: gowarc.NewMarshaler(), sleepUs: map[int]int{}, gate: map[int]chan struct{}{}, midGate: map[int]chan struct{}{}, cont: map[int]bool{}, fail: map[int]bool{}, contDone: map[int]bool{}, entered: make(chan int, 1000)}
 	type release struct {
 		tok, caller, op, ms int
 	}
@@ -134,6 +139,9 @@ func kConc(args []string) (string, string) {
 			case "cont":
 				t, _ := strconv.Atoi(f[1])
 				cm.cont[t] = true
+			case "fail":
+				t, _ := strconv.Atoi(f[1])
+				cm.fail[t] = true
 			case "release":
 				t, _ := strconv.Atoi(f[1])
 				co := strings.Split(f[3], ".")
@@ -290,7 +298,14 @@ func kConc(args []string) (string, string) {
 		return "returned=not-all open=?", "VIOL c10-hang calls_did_not_return:" + hang
 	}
 	viol := ""
+	// A record the marshaler fails on leaves whatever the marshaler (and, when compressing, the gzip writer: at least an empty
+	// member) had written in the file. Such histories are outside C09's quantifier (its files are produced by successful writes);
+	// they are run for C10: every call returns, the failure comes back in the response, Close leaves no in-progress file.
+	failScenario := len(cm.fail) > 0
 	setViol := func(sig, detail string) {
+		if failScenario && strings.HasPrefix(sig, "c09-") {
+			return
+		}
 		if viol == "" {
 			viol = "VIOL " + sig + " " + sanitize(detail)
 		}
@@ -359,7 +374,14 @@ func kConc(args []string) (string, string) {
 			for i, r := range c.resp {
 				t := c.toks[i]
 				if r.Err != nil {
+					if cm.fail[t] {
+						continue // the marshaler failed: the response says so
+					}
 					setViol("c09-write-error", fmt.Sprintf("tok=%d %v", t, r.Err))
+					continue
+				}
+				if cm.fail[t] {
+					viol = "VIOL c10-error-swallowed " + fmt.Sprintf("record %d failed to marshal but its response carries no error", t)
 					continue
 				}
 				ms := byTok[t]
@@ -448,7 +470,7 @@ func genConc(r *rng, n int, tier string, emit func(string, ...string)) {
 	for i := 0; i < n; i++ {
 		k := r.rangeInt(1, 3)
 		cfg := fmt.Sprintf("k=%d;comp=%s;max=%d;info=%s", k, tf(r.chance(1, 2)), pick(r, []int{0, 600, 1500}), tf(r.chance(1, 2)))
-		switch r.intn(8) {
+		switch r.intn(9) {
 		case 0: // Close while a Write is being written
 			a := next()
 			emit("conc", cfg, fmt.Sprintf("W%d/S2000,C", a), fmt.Sprintf("gate:%d;release:%d:after:1.1:20", a, a))
@@ -489,6 +511,14 @@ func genConc(r *rng, n int, tier string, emit func(string, ...string)) {
 			a, b := next(), next()
 			emit("conc", cfg, fmt.Sprintf("W%d,W%d,C", a, b), fmt.Sprintf("cont:%d", a))
 			stat("conc-scenario", "continuation")
+		case 7: // a record the marshaler cannot write: the error comes back in the response, every later call still returns
+			a, b, c := next(), next(), next()
+			if r.chance(1, 2) {
+				emit("conc", cfg, fmt.Sprintf("W%d,W%d,R,W%d,C", a, b, c), fmt.Sprintf("fail:%d", a))
+			} else {
+				emit("conc", cfg, fmt.Sprintf("W%d+%d/S500,W%d,R/S3000,C", a, b, c), fmt.Sprintf("fail:%d", b))
+			}
+			stat("conc-scenario", "marshal-error")
 		default: // random programs with random delays in the marshaler
 			m := r.rangeInt(2, 4)
 			var progs, steer []string
